@@ -11,3 +11,5 @@ import MimicProps.C06
 #print axioms MimicProps.C06.read_params_is_code
 #print axioms MimicProps.C06.code_params_decode_roundtrip
 #print axioms MimicProps.C06.read_param_value_is_code
+#print axioms MimicProps.C06.parse_com_stmt_execute_is_code
+#print axioms MimicProps.C06.code_literal_lexes_back
